@@ -32,6 +32,8 @@ pub enum Call {
     Describe(&'static str),
     SetBinaryDescriptor(&'static str, &'static str),
     SetReferenceDescriptor(&'static str, &'static str),
+    /// parse, render with expr(), parse the rendering again: "same" or what came out (C12's concurrent part)
+    RoundTrip(&'static str),
 }
 
 pub struct Workload {
@@ -215,8 +217,31 @@ pub fn extra_workloads() -> Vec<Workload> {
     ]
 }
 
+/// expr() racing a re-registration (C12's schedule stage)
+pub fn render_workloads() -> Vec<Workload> {
+    use Call::*;
+    vec![
+        Workload {
+            name: "E1-roundtrip-vs-reregistration-of-builtin",
+            about: "(C12) a round trip through expr() while another thread re-registers the built-in `*` (same precedence and associativity, another handler): the rendering must parse back to the same tree whenever it happens",
+            pre: vec![Exec("1 + 1")],
+            threads: vec![vec![RoundTrip("(a + b) * c"), RoundTrip("a * (b + c) * d")], vec![RegInfix("*", 120, true, "M")]],
+            post: vec![RoundTrip("(a + b) * c")],
+            write_set: vec![1],
+        },
+        Workload {
+            name: "E2-roundtrip-vs-reregistration-of-user-operator",
+            about: "(C12) the same with a user operator re-registered with the same precedence and associativity",
+            pre: vec![Exec("1 + 1"), RegInfix("xo", 105, true, "O")],
+            threads: vec![vec![RoundTrip("(a xo b) * c"), RoundTrip("a xo (b xo c)")], vec![RegInfix("xo", 105, true, "N")]],
+            post: vec![RoundTrip("a xo (b xo c)")],
+            write_set: vec![1],
+        },
+    ]
+}
+
 pub fn find_workload(name: &str) -> Option<Workload> {
-    workloads().into_iter().chain(extra_workloads()).find(|w| w.name == name)
+    workloads().into_iter().chain(extra_workloads()).chain(render_workloads()).find(|w| w.name == name)
 }
 
 fn tagged(name: &'static str, tag: &'static str) -> impl Fn(Vec<Value>) -> Value + Send + Sync + Clone {
@@ -244,6 +269,15 @@ pub fn run_call(c: &Call, ctx: &mut Context) -> String {
             let f = tagged(n, t);
             expression_engine::register_postfix_op(n, Arc::new(move |a| Ok(f(vec![a]))));
             Ok("registered".into())
+        }
+        Call::RoundTrip(text) => {
+            let t = parse_expression(text).map_err(|e| format!("Err(parse {:?})", e))?;
+            let rendered = t.expr();
+            match parse_expression(&rendered) {
+                Ok(t2) if conv(&t2) == conv(&t) => Ok("Ok(same)".to_string()),
+                Ok(_) => Ok(format!("Ok(differs: {:?})", rendered)),
+                Err(e) => Ok(format!("Ok(rendering rejected: {:?} {:?})", rendered, e)),
+            }
         }
         Call::Describe(text) => parse_expression(text).map(|t| format!("Ok({:?})", t.describe())).map_err(|e| format!("Err({:?})", e)),
         Call::SetBinaryDescriptor(op, tag) => {
@@ -481,7 +515,7 @@ struct Explored {
 /// (Full real-time order between arbitrary calls is not demanded: the property speaks of
 /// "some sequential order of the same calls".)
 fn linearizable(w: &Workload, obs: &str, calls: &[(usize, usize, u64, u64)], allowed: &[(Vec<usize>, String)]) -> bool {
-    let is_reg = |t: usize, k: usize| !matches!(w.threads[t][k], Call::Exec(_) | Call::Parse(_) | Call::Describe(_));
+    let is_reg = |t: usize, k: usize| !matches!(w.threads[t][k], Call::Exec(_) | Call::Parse(_) | Call::Describe(_) | Call::RoundTrip(_));
     allowed.iter().any(|(order, o)| {
         if o != obs {
             return false;
@@ -599,10 +633,13 @@ fn explore(w: &Workload, bound: usize, reduce: bool, jobs: usize, budget: Durati
                             }
                             f.push(("machinery:replay-diverged".into(), case.clone(), d.to_string()));
                         }
-                        if j["stuck"].as_bool() == Some(true) {
-                            f.push(("machinery:uncontrolled-blocking".into(), case.clone(), "the baton holder made no progress for 8 s (a primitive the hooks do not wrap?)".into()));
+                        let stuck = j["stuck"].as_bool() == Some(true);
+                        if stuck {
+                            // (the results of a run that was cut off are not judged)
+                            f.push(("machinery:uncontrolled-blocking".into(), case.clone(), "nobody made progress for 8 s and nobody could be scheduled (a primitive the hooks do not wrap?)".into()));
                         }
-                        if let Some(d) = j["deadlock"].as_str() {
+                        if stuck {
+                        } else if let Some(d) = j["deadlock"].as_str() {
                             f.push((format!("deadlock:{}", w.name), case.clone(), d.to_string()));
                         } else if obs.contains("PANIC(") {
                             f.push((format!("panic-in-thread:{}", w.name), case.clone(), obs.clone()));
